@@ -83,10 +83,15 @@ def build_book(r, tier):
         names.append(nm)
         for j, rec in enumerate(recs):
             nr += 1
-            model.append({"nr": nr, "fnr": j + 1, "f": nm, "k": k + 1, "nf1": len(rec), "nf2": len(rec) + 1})
+            positional = fmt in ("csv_implicit", "nidx")
+            model.append({"nr": nr, "fnr": j + 1, "f": nm, "k": k + 1, "nf1": len(rec), "nf2": len(rec) + 1,
+                          "keys": ";".join(str(c + 1) if positional else kk for c, (kk, _) in enumerate(rec)),
+                          "vals": ";".join(vv for _, vv in rec)})
     iflags = {"dkvp": [], "csv": ["--icsv"], "csv_implicit": ["--icsv", "--implicit-csv-header"], "json": ["--ijson"], "nidx": ["--inidx", "--ifs", " "],
               "tsv": ["--itsv"], "jsonl": ["--ijsonl"], "xtab": ["--ixtab"]}[fmt]
-    prog = ("$nf1 = NF; $nf2 = NF; $* = {\"nr\": NR, \"fnr\": FNR, \"f\": FILENAME, \"k\": FILENUM, \"nf1\": $nf1, \"nf2\": $nf2}; "
+    # keys/vals: the record content itself (per-file header reset, concatenation of files), not only the counters
+    prog = ("str keys = joink($*, \";\"); str vals = joinv($*, \";\"); $nf1 = NF; $nf2 = NF; "
+            "$* = {\"nr\": NR, \"fnr\": FNR, \"f\": FILENAME, \"k\": FILENUM, \"nf1\": $nf1, \"nf2\": $nf2, \"keys\": keys, \"vals\": vals}; "
             "end { emit mapsum({\"final_nr\": NR}, {}) }")
     args = ["mlr"] + iflags + ["--ojson", "put", prog] + names
     model.append({"final_nr": nr})
@@ -239,6 +244,9 @@ def eval_source(case, chk):
 def pipe_safe(verb):
     s = " ".join(verb)
     if any(w in s for w in ("NR", "FNR", "FILENAME", "FILENUM", "seqgen", "print", "emit", "dump", "tee", "@", "ENV", "nothing")):
+        return False
+    if verb[0] in ("describe", "summary", "sparkline", "bar", "json-parse", "utf8-to-latin1", "flatten", "unflatten", "rank"):
+        # report or depend on inferred types (a float 0 prints as "0" and is an int to the next process): not type-stable
         return False
     if verb[0] in ("fill-down", "sec2gmt", "sec2gmtdate", "split", "case", "format-values", "having-fields", "template", "unsparsify", "sparsify",
                    "merge-fields", "top", "step", "histogram", "fraction", "stats2", "json-stringify", "altkv", "nest", "grep", "sub", "gsub", "label"):
